@@ -598,3 +598,26 @@ Proof.
 Qed.
 
 End ArrayRefine.
+
+(* ------------------------------------------------------------------ congruence of the array operations
+   (used by Bridge/PlumbingBridge.v to compare a generated description with the model's pipeline operation by
+   operation, index expressions by lia, without asking the kernel to convert two large terms) *)
+Section Congr.
+Variable O : Ops.
+Lemma a_slice_congr a b c d (x : arr O) a' b' c' d' x' : a = a' -> b = b' -> c = c' -> d = d' -> x = x' ->
+  a_slice O a b c d x = a_slice O a' b' c' d' x'.
+Proof. intros; subst; reflexivity. Qed.
+Lemma a_pad_congr a b c d (x : arr O) a' b' c' d' x' : a = a' -> b = b' -> c = c' -> d = d' -> x = x' ->
+  a_pad O a b c d x = a_pad O a' b' c' d' x'.
+Proof. intros; subst; reflexivity. Qed.
+Lemma a_real_congr (x x' : arr O) : x = x' -> a_real O x = a_real O x'.
+Proof. intros; subst; reflexivity. Qed.
+Lemma a_fft2_congr i n (x x' : arr O) : x = x' -> a_fft2 O i n x = a_fft2 O i n x'.
+Proof. intros; subst; reflexivity. Qed.
+Lemma a_shift_congr i (x x' : arr O) : x = x' -> a_shift O i x = a_shift O i x'.
+Proof. intros; subst; reflexivity. Qed.
+Lemma a_mul_congr s (x x' : arr O) : x = x' -> a_mul O x s = a_mul O x' s.
+Proof. intros; subst; reflexivity. Qed.
+Lemma mkArr_congr r a b (f : Z -> Z -> Z -> C O) a' b' : a = a' -> b = b' -> mkArr O r a b f = mkArr O r a' b' f.
+Proof. intros; subst; reflexivity. Qed.
+End Congr.
